@@ -823,6 +823,17 @@ impl Program {
                 } else {
                     seen_registers.insert(out_name.clone(), register.span.clone());
                 }
+                // two banks with the same input prefix would share (and redeclare) an input wire
+                if seen_registers.contains_key(&in_name) {
+                    found_error = true;
+                    errors.push(Error::DoubleDeclaredRegisterOutWire {
+                        name: String::from(in_name.clone()),
+                        old_span: seen_registers.get(&in_name).unwrap().clone(),
+                        new_span: register.span.clone(),
+                    })
+                } else {
+                    seen_registers.insert(in_name.clone(), register.span.clone());
+                }
 
                 if found_error {
                     continue;
